@@ -193,7 +193,7 @@ def run_size(ctx):
     # through every node; the size every node reports (its local partitions + lookups at the real peers) is the
     # number of live items - also after kill -9 / restart and with one node down
     import clusfam
-    lines, nbad = clusfam.real_server_kinds(ctx, ["durable"], {"SizeNotSum", "ForeignPartitionServed"}, 1 if quick else 3)
+    lines, nbad = clusfam.real_server_kinds(ctx, ["durable", "size-down"], {"SizeNotSum", "ForeignPartitionServed"}, 1 if quick else 3)
     nsz = sum(1 for x in lines if '"ev":"found"' in x and '"sizeerr":""' in x)
     ctx.log("real servers: %d dataset sizes reported by the nodes checked against the acknowledged writes: %d failed checks" % (nsz, nbad))
     if nsz == 0:
